@@ -54,7 +54,7 @@ theorem scan_bad_usage_iff (cfg : Cfg) (t : Tree) (lk : Key) (le : EP) (rk : Key
   unfold scanArgsOk
   cases checkEmptyRange lk le rk re <;> cases r2l <;> simp
 
-/- OPEN: not yet proved
+/- OPEN: right-to-left not yet proved
 
 /-- a quiescent scan returns precisely the entries of the interval in ascending order, each with
     its current value, truncated to the first `max` entries (right-to-left with `max = 1`: the
@@ -66,13 +66,23 @@ theorem scan_spec (t : Tree) (lk : Key) (le : EP) (rk : Key) (re : EP) (max : Na
     (scan cfgFixed t lk le rk re max r2l).tuples = scanSpec t lk le rk re max r2l :=
   Yak.Tree.scan_spec t lk le rk re max r2l h ha
 
+-/
+
+/-- forward scans (`r2l = false`): a quiescent scan returns precisely the entries of the interval in
+    ascending order, each with its current value, truncated to the first `max` entries. `scanSpec`
+    is the filter of the in-order content (C08: strictly ascending, equal to what point lookups
+    see). -/
+theorem scan_spec_partial (t : Tree) (lk : Key) (le : EP) (rk : Key) (re : EP) (max : Nat)
+    (h : Inv t) (ha : scanArgsOk lk le rk re max false = true) :
+    (scan cfgFixed t lk le rk re max false).status = Status.OK ∧
+    (scan cfgFixed t lk le rk re max false).tuples = scanSpec t lk le rk re max false :=
+  ⟨Yak.Tree.scan_status_ok t lk le rk re max false h ha, Yak.Tree.scan_spec_fwd t lk le rk re max h ha⟩
+
 /-- an INF endpoint ignores the key passed with it. -/
 theorem scan_inf_ignores_key (t : Tree) (lk lk' rk rk' : Key) (le re : EP) (max : Nat) (r2l : Bool) (h : Inv t) :
     (le = .inf → (scan cfgFixed t lk le rk re max r2l).tuples = (scan cfgFixed t lk' le rk re max r2l).tuples) ∧
     (re = .inf → (scan cfgFixed t lk le rk re max r2l).tuples = (scan cfgFixed t lk le rk' re max r2l).tuples) :=
   Yak.Tree.scan_inf_ignores_key t lk lk' rk rk' le re max r2l h
-
--/
 
 /-- the unrepaired scan does not ignore `l_key` with a left INF: a concrete two-leaf tree. -/
 theorem D5_counterexample :
